@@ -42,6 +42,9 @@ class HarnessError(Exception):
     """Something is wrong with the simulator or the harness, not with toasty."""
 
 
+CHOICE_SINK = [None]    # file descriptor that receives every drawn value (set only while scanning for a crashing run)
+
+
 class Choices(object):
     """The choice sequence.  ``draw(n)`` returns a value in ``range(n)``.
 
@@ -74,6 +77,8 @@ class Choices(object):
         else:
             v = 0
         self.rec.append(v)
+        if CHOICE_SINK[0] is not None:
+            os.write(CHOICE_SINK[0], b"%d\n" % v)      # crash diagnosis: the choices survive the death of the process
         if self.kinds is not None:
             self.kinds.append(kind)
         return v
